@@ -75,7 +75,7 @@ func corpusEntries() []entry {
 	for _, nc := range gen.NumberPool() {
 		nums = append(nums, nc.V)
 	}
-	// F-32 (c16-whole-number-text.patch): whole numbers whose shortest round-trip text denotes another integer
+	// F-32 / F-98 (fixed by a832804, c16-whole-number-text.patch): whole numbers whose shortest round-trip text denotes another integer
 	for _, x := range []float64{1e23, 1e300, -1e300, 1e22, 1e21, 9007199254740993, 1 << 53, (1 << 53) + 2, 1.2345678901234567e40, math.MaxFloat64, -math.MaxFloat64,
 		math.MaxFloat32, 4.611686018427388e18, 9.223372036854776e18, -9.223372036854776e18, -9.223372036854778e18, 1.8446744073709552e19, 123456789012345680000} {
 		nums = append(nums, f(x))
@@ -114,8 +114,9 @@ func corpusEntries() []entry {
 	}
 	// both bounds; equal bounds; bounds whose text is long
 	for _, pr := range [][2]cty.Value{{n(0), n(0)}, {n(-1), n(1)}, {f(0.5), f(0.5)}, {p("0.1"), p("0.2")}, {n(math.MinInt64), n(math.MaxInt64)},
+		{cty.NumberVal(new(big.Float).SetPrec(512).SetFloat64(1e300)), f(1e300)}, // F-98: the same number at 512 and 53 bits came back as lower > upper (decoder panic)
 		{f(-1e300), f(1e300)}, {f(-math.MaxFloat64), f(math.MaxFloat64)}, {cty.NumberVal(pow2(600, 512)), cty.NumberVal(pow2(601, 512))},
-		{p("1e-600"), p("2e-600")},                                       // F-116b: each bound is ~600 bytes of text, together above the decoder's 1 KiB limit
+		{p("1e-600"), p("2e-600")},                                       // F-96 (fixed by 0e54857): each bound is ~600 bytes of text, together above the decoder's 1 KiB limit
 		{cty.NumberVal(pow2(2000, 512)), cty.NumberVal(pow2(2001, 512))}, // the same with whole numbers
 		{p("1e-400"), p("1e-399")}, {cty.NegativeInfinity, n(5)}, {n(5), cty.PositiveInfinity}, {cty.NegativeInfinity, cty.PositiveInfinity},
 		{f(math.Inf(-1)), f(math.Inf(1))}, {n(1).Divide(n(3)), n(2).Divide(n(3))}} {
@@ -229,14 +230,15 @@ func corpusEntries() []entry {
 	add(list(tup(cty.NullVal(dyn)), tup(cty.DynamicVal)))
 	add(mp("a", obj("x", cty.DynamicVal)))
 
-	// --- F-33: the encoder's own output for a collection whose members resolve to different types
+	// --- F-33 / F-97 (panic fixed by ec9cf26; the remaining error is listed as F-116b): the encoder's own output
+	// for a collection whose members resolve to different types
 	add(list(mp("a", n(1)), cty.MapValEmpty(num)), cty.List(cty.Map(dyn)))
 	add(set(mp("a", n(1)), cty.MapValEmpty(num)), cty.Set(cty.Map(dyn)))
 	add(mp("x", list(s("a")), "y", cty.ListValEmpty(cty.String)), cty.Map(cty.List(dyn)))
 	add(list(list(n(1)), cty.NullVal(cty.List(num))), cty.List(cty.List(dyn)))
 	add(list(set(n(1)), unk(cty.Set(num))), cty.List(cty.Set(dyn)))
 	add(list(obj("a", list(n(1))), obj("a", cty.ListValEmpty(num))), cty.List(objT("a", cty.List(dyn))))
-	// --- F-34: the format cannot carry the type below a null / unknown / empty part
+	// --- F-34 (listed as F-116a): the format cannot carry the type below a null / unknown / empty part
 	add(cty.NullVal(objT("a", cty.Set(cty.Bool))), objT("a", cty.Set(dyn)))
 	add(cty.ListValEmpty(cty.String), cty.List(dyn))
 	add(unk(cty.List(cty.String)), cty.List(dyn))
